@@ -1909,6 +1909,48 @@ func (m *repoManager) merge(parents []dvid.UUID, note string, mt MergeType) (dvi
 	}
 	m.repoMutex.RUnlock()
 
+	// Only these merge types are implemented.  Refuse the others before anything is created.
+	switch mt {
+	case MergeConflictFree:
+		// No processing needs to be done except for metadata changes.
+		// Any issues will be noted during key-value lookup while traversing the DAG.
+
+	case MergeTypeSpecificAuto:
+		return dvid.NilUUID, fmt.Errorf("the type-specific auto merge has not been implemented yet")
+		// go r.asyncMerge(parentNode1, parentNode2, child)
+
+	case MergeExternalData:
+		return dvid.NilUUID, fmt.Errorf("merging with external data has not been implemented yet")
+
+	default:
+		return dvid.NilUUID, ErrBadMergeType
+	}
+
+	// Validate every parent before the child is added to the DAG, so that a refused merge
+	// leaves the DAG, the UUID maps and the version counter exactly as they were.
+	parentVs := make([]dvid.VersionID, len(parents))
+	parentNodes := make([]*nodeT, len(parents))
+	for i, parent := range parents {
+		v, err := m.versionFromUUID(parent)
+		if err != nil {
+			return dvid.NilUUID, err
+		}
+		r.RLock()
+		node, found := r.dag.nodes[v]
+		r.RUnlock()
+		if !found {
+			return dvid.NilUUID, ErrInvalidVersion
+		}
+		node.RLock()
+		locked := node.locked
+		node.RUnlock()
+		if !locked {
+			return dvid.NilUUID, ErrBranchUnlockedNode
+		}
+		parentVs[i] = v
+		parentNodes[i] = node
+	}
+
 	// Add the child node.  Since it's new and unavailable, no need to lock it.
 	childUUID, childV, err := m.newUUID(nil)
 	if err != nil {
@@ -1926,26 +1968,9 @@ func (m *repoManager) merge(parents []dvid.UUID, note string, mt MergeType) (dvi
 	r.Unlock()
 
 	// Set up pointers with parents
-	for _, parent := range parents {
-		v, err := m.versionFromUUID(parent)
-		if err != nil {
-			return dvid.NilUUID, err
-		}
-		r.RLock()
-		node, found := r.dag.nodes[v]
-		r.RUnlock()
-		if !found {
-			return dvid.NilUUID, ErrInvalidVersion
-		}
-
+	for i, node := range parentNodes {
 		node.Lock()
-		if !node.locked {
-			node.Unlock()
-			return dvid.NilUUID, ErrBranchUnlockedNode
-		}
-
-		// Add this parent node
-		child.parents = append(child.parents, v)
+		child.parents = append(child.parents, parentVs[i])
 		node.children = append(node.children, childV)
 		node.updated = time.Now()
 		node.Unlock()
@@ -1969,21 +1994,6 @@ func (m *repoManager) merge(parents []dvid.UUID, note string, mt MergeType) (dvi
 	//  another node-level property saying it's read-only at this time, not
 	//  for all time.  Could require separate API call to retrieve final child
 	//  UUID given an immediately returned token.
-	switch mt {
-	case MergeConflictFree:
-		// No processing needs to be done except for metadata changes.
-		// Any issues will be noted during key-value lookup while traversing the DAG.
-
-	case MergeTypeSpecificAuto:
-		return dvid.NilUUID, fmt.Errorf("the type-specific auto merge has not been implemented yet")
-		// go r.asyncMerge(parentNode1, parentNode2, child)
-
-	case MergeExternalData:
-		return dvid.NilUUID, fmt.Errorf("merging with external data has not been implemented yet")
-
-	default:
-		return dvid.NilUUID, ErrBadMergeType
-	}
 
 	r.Lock()
 	r.updated = time.Now()
